@@ -92,6 +92,11 @@ impl Rng {
         self.fill(&mut v);
         v
     }
+    /// random bytes of a random length in lo..=hi
+    pub fn bytes_in(&mut self, lo: usize, hi: usize) -> Vec<u8> {
+        let n = self.range(lo, hi);
+        self.bytes(n)
+    }
     pub fn fill(&mut self, v: &mut [u8]) {
         for c in v.chunks_mut(8) {
             let x = self.next().to_le_bytes();
